@@ -52,7 +52,10 @@ class GridEmb:
 class AdaptiveAdapter(Adapter):
     name = "PhystAdaptive"
 
-    def __init__(self, grids, spelling: int = 0, wscale=(1, 1), stats_cls=None):
+    def __init__(self, grids, spelling: int = 0, wscale=(1, 1), stats_cls=None, late=False):
+        # late: histograms are created with fixed (non-adaptive) fixed-width bins and switched to adaptive only just
+        # before the first call that may grow them (set_adaptive(True) after copies / projections have been derived)
+        self.late = late
         self.stats_cls = stats_cls      # when every entry of the config uses this position class, statistics can be compared
         self.grids = grids          # list of GridEmb, one per axis (used cyclically)
         self.spelling = spelling
@@ -94,12 +97,16 @@ class AdaptiveAdapter(Adapter):
             w = None
             if batch is not None and (any(e[2] != 1 for e in batch) or self.wden != 1):
                 w = np.array([self._w(e[2]) for e in batch], dtype=float)      # weighted prefill -> float histogram
-            return self.physt.h1(data, "fixed_width", adaptive=True, weights=w, **kw)
+            return self.physt.h1(data, "fixed_width", adaptive=not self.late, weights=w, **kw)
         data = None if batch is None else np.array([self._point(e[0], e[1]) for e in batch])
         w = None
         if batch is not None and (any(e[2] != 1 for e in batch) or self.wden != 1):
             w = np.array([self._w(e[2]) for e in batch])
-        return self.physt.h(data, "fixed_width", dim=dim, adaptive=True, weights=w, **kw)
+        return self.physt.h(data, "fixed_width", dim=dim, adaptive=not self.late, weights=w, **kw)
+
+    def _wake(self, h):
+        if self.late and not h.is_adaptive():
+            h.set_adaptive(True)
 
     def apply(self, real, action, args, pre):
         obs = {"exc": None, "ret": None}
@@ -115,6 +122,7 @@ class AdaptiveAdapter(Adapter):
                 i, cell, cls, w = args
                 pt = self._point(cell, cls, fmap(pre["pool"])[i])
                 h = o[i]
+                self._wake(h)
                 if len(cell) == 1:
                     obs["ret"] = h.fill(pt[0]) if (w == 1 and self.wden == 1 and self.spelling % 2) else h.fill(pt[0], self._w(w))
                 else:
@@ -122,6 +130,7 @@ class AdaptiveAdapter(Adapter):
             elif action == "FillN":
                 i, batch = args
                 h = o[i]
+                self._wake(h)
                 dim = h.ndim
                 pts = [self._point(e[0], e[1], fmap(pre["pool"])[i]) for e in batch]
                 w = None
@@ -133,10 +142,12 @@ class AdaptiveAdapter(Adapter):
                     h.fill_n(np.array(pts, dtype=float).reshape(-1, dim), weights=w)
             elif action == "Add":
                 i, j, k = args
+                self._wake(o[i])
                 o[k] = o[i] + o[j]
             elif action == "IAdd":
                 i, j = args
                 x = o[i]
+                self._wake(x)
                 x += o[j]
                 o[i] = x
             elif action == "Copy":
@@ -163,7 +174,14 @@ class AdaptiveAdapter(Adapter):
         if h.ndim != dim:
             fail("ndim", dim, h.ndim)
             return
+        # both representations of the bins are read (in an order that depends on the spelling): the (n, 2) array is cached by
+        # the binning, so a stale cache shows either here or at the next call
+        def read_pairs():
+            return [np.asarray(h.bins)] if dim == 1 else [np.asarray(b) for b in h.bins]
+        pairs = read_pairs() if self.spelling % 2 else None
         edges = [h.numpy_bins] if dim == 1 else h.edges
+        if pairs is None:
+            pairs = read_pairs()
         for a in range(dim):
             g = grids_for_axes[a]
             ax = axes[a]
@@ -171,6 +189,11 @@ class AdaptiveAdapter(Adapter):
             got = np.asarray(edges[a]).ravel().tolist()
             if "bins" in view and got != exp:
                 fail("bins", exp, got)
+                return
+            gotp = pairs[a].reshape(-1, 2).tolist()
+            expp = [[exp[i], exp[i + 1]] for i in range(len(exp) - 1)]
+            if "bins" in view and gotp != expp:
+                fail("bins", expp, gotp)
                 return
         shape = tuple(ax["count"] for ax in axes)
         f = np.asarray(h.frequencies)
